@@ -164,9 +164,15 @@ def observe(sess, hist, op, exc, valid, reason, pre, acc):
 _shard = kcommon.make_run(__name__, "observe", include_invalid=True)
 
 
+_chain = kcommon.make_chain_run(__name__, "observe")
+
+
 def run(tier):
-    return kcommon.run_configs(__name__, tier)
+    acc = kcommon.run_configs(__name__, tier)
+    # straight-line histories in ONE context with reads in between (read-side hidden state)
+    acc.merge(core.pmap(__name__, "_chain", [c.to_witness() for c in kcommon.chain_configs(tier)]))
+    return acc
 
 
 def replay(w):
-    return kcommon.replay(w, observe)
+    return kcommon.replay_any(w, observe)
